@@ -994,6 +994,52 @@ impl<T, S: Status> Drop for Drain<'_, T, S> {
     }
 }
 
+// === Verification hooks ======================================================
+
+/// Hooks for out-of-tree proof harnesses (feature `verif-hooks`): build a table
+/// from an arbitrary raw representation and observe the representation.
+#[cfg(all(feature = "verif-hooks", not(any(feature = "allocator-api2", feature = "nightly"))))]
+impl<T: Copy, S: Status> RawTable<T, S> {
+    /// Create a table whose slot array is exactly `slots` (status, value);
+    /// values of non-hash slots are ignored.
+    pub fn verif_from_parts(slots: &[(S, T)], len: usize, free: usize) -> Self {
+        let mut data = Vec::with_capacity(slots.len());
+        for (status, val) in slots {
+            let mut slot = Slot {
+                status: *status,
+                data: MaybeUninit::uninit(),
+            };
+            if status.is_hash() {
+                slot.data.write(*val);
+            }
+            data.push(slot);
+        }
+        RawTable {
+            data: data.into_boxed_slice(),
+            len,
+            free,
+            phantom: PhantomData,
+        }
+    }
+
+    /// Status and (if occupied) value of slot `i`
+    pub fn verif_slot(&self, i: usize) -> (S, Option<T>) {
+        let slot = &self.data[i];
+        let val = if slot.status.is_hash() {
+            // SAFETY: hash status means that the data is initialized
+            Some(unsafe { slot.data.assume_init_read() })
+        } else {
+            None
+        };
+        (slot.status, val)
+    }
+
+    /// Value of the internal free-slot counter
+    pub fn verif_free(&self) -> usize {
+        self.free
+    }
+}
+
 // === Tests ===================================================================
 
 #[cfg(test)]
